@@ -427,6 +427,13 @@ def derivative_row(mod, name):
             raise Unsupported("%s: Hessian is not reshaped to (d, d) with d = x.shape[1]: %s" % (fname, U(v)[:100]))
         call = v.func.value
         row["inner"] = "ISlogdetSquare"
+    elif len(ib) == 4 and isinstance(ib[0], ast.Assign) and U(ib[0].targets[0]) == "hess" \
+            and U(ib[1]) == ("if hess.size == d * d:\n    hess = hess.reshape(hess_shape)\nelse:\n    hess = hess.reshape((-1,) + hess_shape)") \
+            and U(ib[2]) == "sign, log_det = jax.numpy.linalg.slogdet(hess)" and U(ib[3]) == "return (sign, log_det)" \
+            and names.get("hess_shape") == "(d, d)" and names.get("d") == "x.shape[1]":
+        # scalar-valued function: one (d, d) Hessian; vector-valued: one (d, d) block per output
+        call = ib[0].value
+        row["inner"] = "ISlogdetPerOutput"
     else:
         raise Unsupported("%s: inner function body: %s" % (fname, U(inner_def)[:200]))
     if not (isinstance(call, ast.Call) and len(call.args) == 2 and U(call.args[0]) == "x[None, :]"
@@ -436,10 +443,11 @@ def derivative_row(mod, name):
     if names.get("in_axes") != "(0,) * (len(args) + 1)":
         raise Unsupported("%s: in_axes" % fname)
     vm = "jax.vmap(%s, in_axes=in_axes)(x, *args)" % inner_def.name
-    if row["inner"] == "ISlogdetSquare":
+    if row["inner"] in ("ISlogdetSquare", "ISlogdetPerOutput"):
         if len(rest) != 1 or U(rest[0]) != "return " + vm:
             raise Unsupported("%s: tail %s" % (fname, [U(r) for r in rest]))
-        row["thr"], row["small"], row["large"] = None, "SRows", "SRows"
+        tgt = "SRows" if row["inner"] == "ISlogdetSquare" else "SRowsOut"
+        row["thr"], row["small"], row["large"] = None, tgt, tgt
         return row
     if len(rest) != 3 or not isinstance(rest[0], ast.Assign) or U(rest[0].value) != vm:
         raise Unsupported("%s: vmap statement" % fname)
